@@ -173,6 +173,16 @@ def queries(tier):
     for n in lens(5 if th else 4, 1):
         addp(['pkg:', ('hole', 'h', n), '/ns/n'])
     addp(['pkg:', ('hole', 'h', 3), '/ns/n@1?k=v#s'])
+    # type strings next to every known name: one / two free bytes appended, prepended, inserted or substituted
+    for ty in NAMES:
+        for nm in (ty, ty.upper()) if th else (ty,):
+            for k in (1, 2):
+                addp(['pkg:' + nm, ('hole', 'h', k), '/ns/n'])
+            addp(['pkg:', ('hole', 'h', 1), nm, '/ns/n'])
+            for i in range(len(nm)):
+                addp(['pkg:' + nm[:i], ('hole', 'h', 1), nm[i + 1:], '/ns/n'])
+                if i and (th or i == len(nm) // 2):
+                    addp(['pkg:' + nm[:i], ('hole', 'h', 1), nm[i:], '/ns/n'])
     return qs
 
 
